@@ -28,6 +28,7 @@ func runC09(c *report.Ctx) {
 	ruleUnminedCreditCheckedPerOutput(c)
 	ruleEveryRecordedSpenderConsidered(c)
 	ruleEveryRelevantOutputCredited(c) // an output already recorded must refuse the transaction, not be skipped
+	ruleSeenSetOutlivesConfirmation(c)
 	rulePendingInputRowOwners(c)
 
 	c.Rule("settle-pairing", "confirmation, conflict removal and rollback move a transaction between the pending and the mined buckets completely (every part of the record) and in the order that keeps the confirming transaction out of its own conflict purge", 9)
